@@ -10,6 +10,9 @@ Oracle: plain NumPy (80-bit long double where available) written from the proper
 mixture density, its explicit sum / Gauss-Legendre quadrature, a 6th-order numerical gradient, the simplex and
 bound conditions, the closed-form one-component estimate, the density of data pooled from several observation windows
 (count-weighted truncated densities, each on its own window) and its integral, and the per-track rows of the extraction.
+Track groups are also treated as OBJECTS with a history: one group is analysed, edited (in place: filter,
+remove_tracks_in_rect, remove, extend, split, merge; or replaced by / set aside for a copy, slice, sum, filter_tracks
+result) and analysed again after every edit; each analysis is judged on the tracks the group object holds at that moment.
 """
 import itertools
 import math
@@ -18,7 +21,7 @@ from fractions import Fraction
 
 import numpy as np
 
-from common import canonical, dec_float, dec_rat, enc_bool, enc_float, enc_list, enc_rat, errname
+from common import canonical, dec_float, dec_list, dec_rat, enc_bool, enc_float, enc_list, enc_rat, errname
 
 PROP = "C15"
 THEOREMS = [
@@ -50,10 +53,17 @@ RULE = (
     "edges of and just outside every observation window -- scalar limits and 2-3 different per-observation windows -- and "
     "integrated over the union of the windows with panel boundaries at every window edge), 'constraint' (random "
     "masks/amplitudes incl. invalid), 'extract' (1-3 kymographs, <=12 tracks, tracks in the first/last line, zero-length "
-    "tracks, missing minimum durations, directly and through fit_binding_times), 'validate' (malformed constructor "
+    "tracks, missing minimum durations, directly and through fit_binding_times), 'extract-seq' (ONE group object over 1-4 "
+    "kymographs that is analysed, then edited one to five times -- in place by filter(minimum_length/minimum_duration), "
+    "remove_tracks_in_rect, remove, extend (also with tracks of a kymograph new to the group), split, merge; or through a "
+    "copy / slice / index array / + / filter_tracks result that replaces it or is kept aside and returned to later -- and "
+    "analysed again after every edit, each analysis with its own exclude_ambiguous_dwells / observed_minimum flags; the "
+    "tracks the object holds at that moment are read off it by iteration and model and oracle are evaluated on them, rows "
+    "compared as a multiset; small scope: every sequence of at most two edits from an alphabet of ten on a five-track "
+    "group over two kymographs, ambiguous dwells kept and excluded), 'validate' (malformed constructor "
     "arguments). Non-trivial: likelihood case with >=2 components or a finite/discretised window; fit; constraint with "
-    "a fixed entry or an error; extraction that drops at least one track and keeps at least one, or raises; rejected "
-    "validation."
+    "a fixed entry or an error; extraction that drops at least one track and keeps at least one, or raises; edit sequence in "
+    "which an edit changed the tracks in the group and a later analysis handed rows over; rejected validation."
 )
 TRUSTED = [
     "RealLike formulas are executed at Float by the driver and compared with NumPy doubles within rel 1e-9 of a "
@@ -74,6 +84,10 @@ ASSUMPTIONS = [
     "truncated densities of the individual windows weighted by their share of the dwell times, each zero outside its own "
     "window (the density the per-observation likelihood is the likelihood of); single points on a window edge are tied to "
     "the model only",
+    "for a group object with a history, 'the tracks of the group' are the tracks iterating over the object yields at the "
+    "time of the analysis; what an edit (filter, remove_tracks_in_rect, ...) ought to leave in the group is not part of "
+    "this property and is not asserted; the order of the rows handed over is not determined by the property (the "
+    "likelihood is a sum over observations) and is compared only for freshly built groups",
 ]
 
 LD = np.longdouble
@@ -223,29 +237,192 @@ def nll_scale(amps, taus, t):
 # ------------------------------------------------------------------ minimal track-group builder
 
 
-def build_group(case):
+def build_kymos(case):
     from lumicks.pylake.kymo import _kymo_from_array
-    from lumicks.pylake.kymotracker.kymotrack import KymoTrack, KymoTrackGroup
 
-    kymos = [
-        _kymo_from_array(np.zeros((4, k["n_lines"])), "r", line_time_seconds=k["line_time"]) for k in case["kymos"]
-    ]
-    tracks = [
-        KymoTrack(
-            np.array(tr["idx"], dtype=np.int64),
-            np.full(len(tr["idx"]), 1.5),
-            kymos[tr["kymo"]],
-            "red",
-            tr["minobs"],
-        )
-        for tr in case["tracks"]
-    ]
-    return KymoTrackGroup(tracks)
+    return [_kymo_from_array(np.zeros((4, k["n_lines"])), "r", line_time_seconds=k["line_time"]) for k in case["kymos"]]
+
+
+def make_track(kymos, tr):
+    """a track on one pixel row (`pos`, in pixels = position units of these kymographs)"""
+    from lumicks.pylake.kymotracker.kymotrack import KymoTrack
+
+    return KymoTrack(
+        np.array(tr["idx"], dtype=np.int64),
+        np.full(len(tr["idx"]), float(tr.get("pos", 1.5))),
+        kymos[tr["kymo"]],
+        "red",
+        tr["minobs"],
+    )
+
+
+def build_group(case, kymos=None):
+    from lumicks.pylake.kymotracker.kymotrack import KymoTrackGroup
+
+    kymos = build_kymos(case) if kymos is None else kymos
+    return KymoTrackGroup([make_track(kymos, tr) for tr in case["tracks"]])
 
 
 def show_rows(cols, removed):
     rows = ["%s:%s:%s:%s" % tuple(enc_float(c[i]) for c in cols) for i in range(len(cols[0]))]
     return "[" + ",".join(rows) + "] " + enc_bool(removed)
+
+
+# ------------------------------------------------------------------ one group OBJECT: edits and repeated analyses
+#
+# An 'extract' case may carry "steps": edits performed one after the other on the SAME KymoTrackGroup object (in-place
+# filter / remove_tracks_in_rect / remove / extend / split / merge, derived groups obtained by copy / slicing / + /
+# filter_tracks, going back to the group an earlier one was derived from).  The dwell-time data are extracted from
+# the freshly built group and again after every step, each time with that analysis' own flags.  What the property
+# determines is: the data handed to the model are those of the tracks that are in the group at that moment.  The tracks
+# in the group are therefore read off the group object itself (iteration) after every step and the model / the oracle
+# are evaluated on exactly that list; nothing is asserted about what an edit ought to do to the group.
+
+
+def seq_flags(case):
+    """(exclude_ambiguous_dwells, observed_minimum) of the first analysis and of the one after every step"""
+    out = [(case["excl"], case["obsmin"])]
+    for st in case.get("steps", []):
+        out.append((st.get("excl", case["excl"]), st.get("obsmin", case["obsmin"])))
+    return out
+
+
+def observe_group(group, kymos):
+    """the tracks that are in the group now, as one token: kymograph:minimum observable duration:[scan lines]|..."""
+    toks = []
+    for tr in group:
+        kid = next((j for j, k in enumerate(kymos) if tr._kymo is k), None)
+        mo = tr._minimum_observable_duration
+        toks.append(f"{'?' if kid is None else kid}:{'N' if mo is None else enc_float(mo)}:"
+                    f"{enc_list([int(v) for v in tr.time_idx])}")
+    return "|".join(toks) if toks else "-"
+
+
+def parse_state(tok):
+    if tok == "-":
+        return []
+    out = []
+    for s in tok.split("|"):
+        kid, mo, idx = s.split(":")
+        out.append({"kymo": int(kid), "minobs": None if mo == "N" else dec_float(mo), "idx": dec_list(idx)})
+    return out
+
+
+def split_state(ans):
+    """answer of one analysis of a case with steps: '<tracks in the group> <rows flag | error>'"""
+    if " " not in ans:
+        return None, ans
+    st, payload = ans.split(" ", 1)
+    return st, payload
+
+
+def apply_step(st, g, other, kymos):
+    """one edit; returns (the group analysed from now on, the other group object that is kept around)"""
+    from copy import copy
+
+    from lumicks.pylake.kymotracker.kymotrack import KymoTrackGroup
+    from lumicks.pylake.kymotracker.kymotracker import filter_tracks
+
+    do = st["do"]
+    if do == "again":
+        pass
+    elif do == "filter":
+        g.filter(minimum_length=st["minimum_length"], minimum_duration=st["minimum_duration"])
+    elif do == "rect":
+        g.remove_tracks_in_rect([list(p) for p in st["rect"]], st["all_points"])
+    elif do == "remove":
+        if len(g):
+            g.remove(g[st["index"] % len(g)])
+    elif do == "extend":
+        new = [make_track(kymos, tr) for tr in st["tracks"]]
+        if st["as"] == "group":
+            g.extend(KymoTrackGroup(new))
+        else:
+            for t in new:
+                g.extend(t)
+    elif do == "split":  # what the tracking widget does to the group in place
+        if len(g):
+            tr = g[st["index"] % len(g)]
+            if len(tr) >= 2:
+                g._split_track(tr, 1 + st["node"] % (len(tr) - 1), st["min_length"])
+    elif do == "merge":
+        if len(g) >= 2:
+            a = g[st["index"] % len(g)]
+            same = [t for t in g if t._kymo is a._kymo]  # the widget connects tracks of the kymograph it shows
+            b = same[st["index2"] % len(same)]
+            g._merge_tracks(a, st["node"] % len(a), b, st["node2"] % len(b))
+    elif do == "derive":
+        how = st["how"]
+        if how == "copy":
+            d = copy(g)
+        elif how == "slice":
+            d = g[st["start"] : st["stop"]]
+        elif how == "pick":
+            d = g[np.array(sorted({i % len(g) for i in st["indices"]}), dtype=int)] if len(g) else g[0:0]
+        elif how == "add":
+            d = g + KymoTrackGroup([make_track(kymos, tr) for tr in st["tracks"]])
+        elif how == "filter_tracks":
+            d = filter_tracks(g, st["minimum_length"], minimum_duration=st["minimum_duration"])
+        else:
+            raise ValueError(how)
+        g, other = (d, g) if st["keep"] == "derived" else (g, d)
+    elif do == "swap":
+        if other is not None:
+            g, other = other, g
+    else:
+        raise ValueError(do)
+    return g, other
+
+
+def describe_step(st):
+    d = {k: v for k, v in st.items() if k not in ("excl", "obsmin", "tracks")}
+    if "tracks" in st:
+        d["tracks"] = len(st["tracks"])
+    return ", ".join(f"{k}={v}" for k, v in d.items())
+
+
+def analyse_group(group, case, excl, obsmin):
+    """the dwell-time data the group hands to the model: rows + removed-zeros flag, or the exception's name"""
+    from lumicks.pylake.kymotracker.kymotrack import KymoTrackGroup
+
+    try:
+        if case["via"] == "private":
+            groups, _ = group._tracks_by_kymo()
+            d, lo, hi, removed, st = KymoTrackGroup._extract_dwelltime_data_from_groups(
+                groups, excl, observed_minimum=obsmin
+            )
+            return show_rows([d, lo, hi, st], bool(removed))
+        with warnings.catch_warnings(record=True) as wlist:
+            warnings.simplefilter("always")
+            m = group.fit_binding_times(
+                1,
+                exclude_ambiguous_dwells=excl,
+                observed_minimum=obsmin,
+                discrete_model=case["discrete"],
+            )
+        removed = any("Some dwell times are zero" in str(w.message) for w in wlist)
+        d = np.asarray(m.dwelltimes, dtype=float)
+        lo, hi = (np.broadcast_to(np.asarray(v, dtype=float), d.shape) for v in m._observation_limits)
+        st = np.full(d.shape, np.nan) if m._timesteps is None else np.broadcast_to(m._timesteps, d.shape)
+        return show_rows([d, lo, hi, st], removed)
+    except Exception as e:
+        return errname(e)
+
+
+def impl_extract_seq(case):
+    kymos = build_kymos(case)
+    group = build_group(case, kymos)
+    flags = seq_flags(case)
+    out = [observe_group(group, kymos) + " " + analyse_group(group, case, *flags[0])]
+    other, refused = None, []
+    for j, (st, (excl, obsmin)) in enumerate(zip(case["steps"], flags[1:])):
+        try:
+            group, other = apply_step(st, group, other, kymos)
+        except Exception as e:  # an edit the group refuses: whatever is in the group afterwards is what counts
+            refused.append(f"step {j + 1} ({st['do']}): {errname(e)}")
+        out.append(observe_group(group, kymos) + " " + analyse_group(group, case, excl, obsmin))
+    case["_refused_steps"] = refused
+    return out
 
 
 # ------------------------------------------------------------------ impl
@@ -396,31 +573,16 @@ def _impl(case):
             val = enc_float(cons["fun"](x, *cons["args"]))
         return [f"{enc_list(list(fitted), enc_bool)} {nfree} {fl(newp)} {val}"]
     if k == "extract":
-        from lumicks.pylake.kymotracker.kymotrack import KymoTrackGroup
-
         try:
+            from lumicks.pylake.kymotracker.kymotrack import KymoTrackGroup  # noqa: F401
+            from lumicks.pylake.kymotracker.kymotracker import filter_tracks  # noqa: F401
+
+            if "steps" in case:
+                return impl_extract_seq(case)
             group = build_group(case)
-            if case["via"] == "private":
-                groups, _ = group._tracks_by_kymo()
-                d, lo, hi, removed, st = KymoTrackGroup._extract_dwelltime_data_from_groups(
-                    groups, case["excl"], observed_minimum=case["obsmin"]
-                )
-                return [show_rows([d, lo, hi, st], bool(removed))]
-            with warnings.catch_warnings(record=True) as wlist:
-                warnings.simplefilter("always")
-                m = group.fit_binding_times(
-                    1,
-                    exclude_ambiguous_dwells=case["excl"],
-                    observed_minimum=case["obsmin"],
-                    discrete_model=case["discrete"],
-                )
-            removed = any("Some dwell times are zero" in str(w.message) for w in wlist)
-            d = np.asarray(m.dwelltimes, dtype=float)
-            lo, hi = (np.broadcast_to(np.asarray(v, dtype=float), d.shape) for v in m._observation_limits)
-            st = np.full(d.shape, np.nan) if m._timesteps is None else np.broadcast_to(m._timesteps, d.shape)
-            return [show_rows([d, lo, hi, st], removed)]
         except Exception as e:
             return [errname(e)]
+        return [analyse_group(group, case, case["excl"], case["obsmin"])]
     if k == "validate":
         t, tmin, tmax, step, n = lik_args(case)
         try:
@@ -552,6 +714,15 @@ def fitted_of(case):
     return dec_fl(toks[1]), dec_fl(toks[2])
 
 
+def extract_op(case, tracks, excl, obsmin):
+    toks = []
+    for tr in tracks:
+        ky = case["kymos"][tr["kymo"]]
+        mo = "N" if tr["minobs"] is None else enc_rat(tr["minobs"])
+        toks.append(f"{tr['kymo']}:{ky['n_lines']}:{enc_rat(ky['line_time'])}:{mo}:{enc_list(tr['idx'])}")
+    return " ".join(["c15.extract", enc_bool(excl), enc_bool(obsmin)] + toks)
+
+
 def ops(case):
     k = case["op"]
     if k == "lik":
@@ -612,12 +783,18 @@ def ops(case):
         mask = "N" if case["mask"] is None else enc_list(case["mask"], enc_bool)
         return [f"c15.constraint {case['n']} {enc_list(case['params'], enc_rat)} {mask} {enc_list(case['x'], enc_rat)}"]
     if k == "extract":
-        toks = []
-        for tr in case["tracks"]:
-            ky = case["kymos"][tr["kymo"]]
-            mo = "N" if tr["minobs"] is None else enc_rat(tr["minobs"])
-            toks.append(f"{tr['kymo']}:{ky['n_lines']}:{enc_rat(ky['line_time'])}:{mo}:{enc_list(tr['idx'])}")
-        return [f"c15.extract {enc_bool(case['excl'])} {enc_bool(case['obsmin'])} " + " ".join(toks)]
+        if "steps" not in case:
+            return [extract_op(case, case["tracks"], case["excl"], case["obsmin"])]
+        # the model is asked about the tracks that were in the group object at the time of each analysis
+        ia = _LAST.get(canonical(case)) or []
+        out = []
+        for j, (excl, obsmin) in enumerate(seq_flags(case)):
+            st = split_state(ia[j])[0] if j < len(ia) else None
+            try:
+                out.append(extract_op(case, case["tracks"] if st is None else parse_state(st), excl, obsmin))
+            except Exception:
+                out.append("c15.extract group-contents-unreadable")  # -> bad-op: reported as a disagreement
+        return out
     if k == "validate":
         return [f"c15.validate {fl(case['t'])} {enc_soa(case['tmin'])} {enc_soa(case['tmax'])} "
                 f"{'N' if case['step'] is None else enc_soa(case['step'])}"]
@@ -640,6 +817,56 @@ def parse_rows(s):
     inner = body[1:-1]
     rows = [r.split(":") for r in inner.split(",")] if inner else []
     return rows, flag
+
+
+def match_rows(R, Q, same):
+    """pairs every row of R with a distinct row of Q (rows are equal or clearly different: greedy is enough)"""
+    if len(R) != len(Q):
+        return False
+    used = [False] * len(Q)
+    for r in R:
+        for j, q in enumerate(Q):
+            if not used[j] and same(r, q):
+                used[j] = True
+                break
+        else:
+            return False
+    return True
+
+
+def outside_own_window(rows, discrete):
+    """DwelltimeModel's own argument validation (checked by the 'validate' cases) has to refuse these rows (dwell time,
+    minimum, maximum, step): a dwell time outside its observation limits (e.g. a track that was split below the minimum
+    duration it carries) or, for the discretised model, a time step above the minimum"""
+    return any(d < lo - 1e-6 * lo or d > hi + 1e-6 * hi or (discrete and st > (1.0 + 1e-6) * lo) for d, lo, hi, st in rows)
+
+
+def agree_extract(case, ia, ma, ordered):
+    if ia.endswith("Error") or ma.endswith("Error"):
+        if case["via"] == "fit" and ia == "RuntimeError" and not ma.endswith("Error"):
+            return parse_rows(ma)[0] == []  # "No tracks available for analysis"
+        if case["via"] == "fit" and ia == "ValueError" and not ordered and not ma.endswith("Error"):
+            return outside_own_window([[float(dec_rat(x)) for x in q] for q in parse_rows(ma)[0]], case["discrete"])
+        return ia == ma
+    R, f1 = parse_rows(ia)
+    Q, f2 = parse_rows(ma)
+    if f1 != f2 or len(R) != len(Q):
+        return False
+
+    def same(r, q):
+        for j, (x, y) in enumerate(zip(r, q)):
+            xv = dec_float(x)
+            if j == 3 and case["via"] == "fit" and not case["discrete"]:
+                if not math.isnan(xv):
+                    return False
+                continue
+            if not close(xv, float(dec_rat(y)), 1e-9, 1e-15):
+                return False
+        return True
+
+    if ordered:
+        return all(same(r, q) for r, q in zip(R, Q))
+    return match_rows(R, Q, same)
 
 
 def agree(case, i, ia, ma):
@@ -712,24 +939,16 @@ def agree(case, i, ia, ma):
                 return False
             return vi == "none" or close(dec_float(vi), float(dec_rat(vm)), 1e-9, 1e-12)
         if k == "extract":
-            if ia.endswith("Error") or ma.endswith("Error"):
-                if case["via"] == "fit" and ia == "RuntimeError" and not ma.endswith("Error"):
-                    return parse_rows(ma)[0] == []  # "No tracks available for analysis"
-                return ia == ma
-            R, f1 = parse_rows(ia)
-            Q, f2 = parse_rows(ma)
-            if f1 != f2 or len(R) != len(Q):
-                return False
-            for r, q in zip(R, Q):
-                for j, (x, y) in enumerate(zip(r, q)):
-                    xv = dec_float(x)
-                    if j == 3 and case["via"] == "fit" and not case["discrete"]:
-                        if not math.isnan(xv):
-                            return False
-                        continue
-                    if not close(xv, float(dec_rat(y)), 1e-9, 1e-15):
-                        return False
-            return True
+            if "steps" not in case:
+                return agree_extract(case, ia, ma, ordered=True)
+            # one analysis of a sequence on one group object: the rows as a multiset (the order in which the code
+            # stacks the kymographs follows the history of the object; extraction_spec is a statement up to that order)
+            st, payload = split_state(ia)
+            if st is None:
+                return False  # the group could not even be built
+            if not parse_state(st) and payload.endswith("Error"):
+                return not ma.endswith("Error") and parse_rows(ma)[0] == []  # nothing in the group, nothing handed over
+            return agree_extract(case, payload, ma, ordered=False)
         return ia == ma
     except Exception:
         return False
@@ -945,7 +1164,9 @@ def expected_rows(case):
     return rows, removed, missing
 
 
-def oracle_extract(case, ia):
+def oracle_extract(case, ia, ordered=True):
+    if "steps" in case:
+        return oracle_extract_seq(case, ia)
     a = ia[0]
     if any(len(tr["idx"]) == 0 for tr in case["tracks"]):
         # which of the two complaints comes first depends on the processing order, not on the property
@@ -956,21 +1177,54 @@ def oracle_extract(case, ia):
         return None if a == "RuntimeError" else f"extraction-missing-minimum: a kept track has no minimum observable duration but {a[:80]}"
     if case["via"] == "fit" and not rows:
         return None if a == "RuntimeError" else f"extraction-no-tracks: nothing to analyse but {a[:80]}"
+    if not ordered and not case["tracks"] and a.endswith("Error"):
+        return None  # a group without tracks: nothing is handed over, by empty arrays or by refusing
+    if not ordered and case["via"] == "fit" and a == "ValueError" and outside_own_window(
+            [[float(x) for x in e] for e in rows], case["discrete"]):
+        return None  # the rows of these tracks do not pass the model's own argument validation: nothing to look at
     if a.endswith("Error"):
         return f"extraction: raised {a} for a valid track group"
     R, flag = parse_rows(a)
     if len(R) != len(rows):
         return f"extraction-tracks-kept: {len(R)} dwell times handed over, {len(rows)} tracks qualify"
     names = ["dwell time", "minimum observation time", "maximum observation time", "discretisation step"]
-    for i, (r, e) in enumerate(zip(R, rows)):
-        for j in range(4):
-            v = dec_float(r[j])
-            if j == 3 and case["via"] == "fit" and not case["discrete"]:
-                continue
-            if not close(v, float(e[j]), 1e-9, 1e-15):
-                return f"extraction-{names[j].replace(' ', '-')}: row {i}: {names[j]} {v!r}, expected {float(e[j])!r}"
+    cols = [j for j in range(4) if not (j == 3 and case["via"] == "fit" and not case["discrete"])]
+    if ordered:
+        for i, (r, e) in enumerate(zip(R, rows)):
+            for j in cols:
+                v = dec_float(r[j])
+                if not close(v, float(e[j]), 1e-9, 1e-15):
+                    return f"extraction-{names[j].replace(' ', '-')}: row {i}: {names[j]} {v!r}, expected {float(e[j])!r}"
+    else:
+        # the rows as a multiset: every row handed over belongs to a different qualifying track of the group
+        G = [[dec_float(x) for x in r] for r in R]
+        E = [[float(x) for x in e] for e in rows]
+        if not match_rows(G, E, lambda g, e: all(close(g[j], e[j], 1e-9, 1e-15) for j in cols)):
+            show = lambda M: sorted(tuple(m[j] for j in cols) for m in M)  # noqa: E731
+            return (f"extraction-rows: ({', '.join(names[j] for j in cols)}) handed over {show(G)}; the qualifying tracks "
+                    f"of the group give {show(E)}")
     if (flag == "T") != removed:
         return f"extraction-zero-dwells-flag: removed_zeros={flag}, expected {removed}"
+    return None
+
+
+def oracle_extract_seq(case, ia):
+    """every analysis of the sequence, judged on the tracks that were in the group object when it was made"""
+    flags = seq_flags(case)
+    if len(ia) != len(flags) or any(split_state(a)[0] is None for a in ia):
+        return f"extraction: a valid track group could not be built: {ia[0][:80]}"
+    for j, (a, (excl, obsmin)) in enumerate(zip(ia, flags)):
+        st, payload = split_state(a)
+        tracks = parse_state(st)
+        sub = {k: v for k, v in case.items() if k != "steps"}
+        sub.update(tracks=tracks, excl=excl, obsmin=obsmin)
+        msg = oracle_extract(sub, [payload], ordered=False)
+        if msg:
+            when = ("for the freshly built group" if j == 0 else
+                    f"after step {j} of {len(case['steps'])} on the same group object ({describe_step(case['steps'][j - 1])})")
+            head, _, rest = msg.partition(":")
+            return (f"{head}:{rest} -- {when}, exclude_ambiguous_dwells={excl}, observed_minimum={obsmin}; the group "
+                    f"holds {len(tracks)} track(s) at that moment")
     return None
 
 
@@ -1005,6 +1259,11 @@ def nontrivial(case, ia):
         return " " in ia[0]
     if k == "constraint":
         return ia[0].endswith("Error") or (case["mask"] is not None and any(case["mask"]))
+    if k == "extract" and "steps" in case:
+        # some edit changed which tracks are in the group, and some analysis after an edit handed rows over
+        states = [split_state(a)[0] for a in ia]
+        after = [split_state(a)[1] for a in ia[1:]]
+        return len(set(states)) > 1 and any(not p.endswith("Error") and parse_rows(p)[0] for p in after)
     if k == "extract":
         if ia[0].endswith("Error"):
             return True
@@ -1027,6 +1286,7 @@ def tags(case, r):
     if case["op"] == "extract":
         t["via"] = case["via"]
         t["excl"] = case["excl"]
+        t["same_group_object_edited"] = "steps" in case
     return t
 
 
@@ -1050,6 +1310,26 @@ def shrink(case):
             c["taus"] = [x for i, x in enumerate(case["taus"]) if i != drop]
             c["perm"] = list(reversed(range(len(a))))
             yield c
+    if k == "extract" and "steps" in case:
+        steps = case["steps"]
+        for i in range(len(steps)):  # fewer edits (the first analysis and one edit are kept)
+            if len(steps) > 1:
+                c = dict(case)
+                c["steps"] = steps[:i] + steps[i + 1:]
+                yield c
+        for i, st in enumerate(steps):  # the analysis after an edit with the flags of the first one
+            if "excl" in st or "obsmin" in st:
+                c = dict(case)
+                c["steps"] = [dict(x) for x in steps]
+                c["steps"][i].pop("excl", None)
+                c["steps"][i].pop("obsmin", None)
+                yield c
+            if len(st.get("tracks", [])) > 1:
+                for j in range(len(st["tracks"])):
+                    c = dict(case)
+                    c["steps"] = [dict(x) for x in steps]
+                    c["steps"][i]["tracks"] = st["tracks"][:j] + st["tracks"][j + 1:]
+                    yield c
     if k == "extract":
         for i in range(len(case["tracks"])):
             if len(case["tracks"]) > 1:
@@ -1277,6 +1557,147 @@ def gen_extract(rng, i, via=None):
     return case
 
 
+LANES = [0.5, 1.5, 2.5, 3.5]  # pixel rows of the 4-pixel kymographs built here (position units: pixels)
+
+
+def gen_seq_track(rng, kymos, kid, via):
+    """one track, boundary-biased: first/last scan line, single point, short"""
+    nl, lt = kymos[kid]["n_lines"], kymos[kid]["line_time"]
+    c = rng.randint(0, 9)
+    first = 0 if c <= 1 else (min(1, nl - 1) if c == 2 else rng.randint(0, nl - 1))
+    c = rng.randint(0, 9)
+    if c <= 1:
+        last = nl - 1
+    elif c == 2:
+        last = max(first, nl - 2)
+    elif c == 3:
+        last = first
+    elif c <= 6:
+        last = min(nl - 1, first + rng.randint(1, 4))
+    else:
+        last = rng.randint(first, nl - 1)
+    idx = sorted({first, last} | {rng.randint(first, last) for _ in range(rng.randint(0, 5))})
+    if via == "fit":
+        minobs = lt  # keeps every dwell time inside its window: the fit itself has nothing to refuse
+    else:
+        minobs = None if rng.chance(0.03) else rng.choice([lt, lt, 2 * lt, 0.0])
+    return {"kymo": kid, "idx": idx, "minobs": minobs, "pos": rng.choice(LANES)}
+
+
+def gen_step(rng, kymos, n_used, via):
+    lt = kymos[rng.randint(0, n_used - 1)]["line_time"]
+    c = rng.randint(0, 99)
+
+    def length_and_duration():
+        ml = rng.choice([1, 2, 2, 3, 3, 4, rng.randint(2, 6)])
+        md = rng.choice([0, 0, 0, lt, 2 * lt, 3 * lt, lt * rng.uniform(0.2, 4.5)])
+        if ml == 1 and md == 0:
+            ml = 2
+        return ml, md
+
+    def new_tracks():
+        pool = len(kymos) if rng.chance(0.4) else n_used  # also tracks of a kymograph not in the group so far
+        return [gen_seq_track(rng, kymos, rng.randint(0, pool - 1), via) for _ in range(rng.choice([1, 1, 2, 3]))]
+
+    if c < 30:
+        ml, md = length_and_duration()
+        st = {"do": "filter", "minimum_length": ml, "minimum_duration": md}
+    elif c < 50:
+        lane = rng.choice(LANES)
+        width = rng.choice([0.5, 0.5, 1.5])
+        span = max(k["n_lines"] * k["line_time"] for k in kymos)
+        t0, t1 = rng.choice([(0.0, 2.0 * span), (0.0, span * rng.uniform(0.1, 0.9)), (span * rng.uniform(0.1, 0.6), 2.0 * span),
+                             tuple(sorted([span * rng.random(), span * rng.random()]))])
+        rect = [[t0, lane - width], [t1, lane + width]]
+        if rng.chance(0.2):  # corners given the other way round
+            rect = [[t1, lane + width], [t0, lane - width]]
+        st = {"do": "rect", "rect": rect, "all_points": rng.chance(0.3)}
+    elif c < 63:
+        st = {"do": "remove", "index": rng.randint(0, 11)}
+    elif c < 76:
+        st = {"do": "extend", "tracks": new_tracks(), "as": rng.choice(["track", "group"])}
+    elif c < 80:
+        st = {"do": "again"}
+    elif c < 84:
+        st = {"do": "split", "index": rng.randint(0, 11), "node": rng.randint(0, 5), "min_length": rng.choice([1, 1, 2, 3])}
+    elif c < 88:
+        st = {"do": "merge", "index": rng.randint(0, 11), "index2": rng.randint(0, 11), "node": rng.randint(0, 5),
+              "node2": rng.randint(0, 5)}
+    elif c < 96:
+        how = rng.choice(["copy", "slice", "pick", "add", "filter_tracks"])
+        st = {"do": "derive", "how": how, "keep": rng.choice(["derived", "original"])}
+        if how == "slice":
+            st["start"], st["stop"] = rng.choice([(None, -1), (1, None), (None, rng.randint(1, 6)), (rng.randint(0, 3), rng.randint(2, 8))])
+        elif how == "pick":
+            st["indices"] = [rng.randint(0, 11) for _ in range(rng.randint(1, 5))]
+        elif how == "add":
+            st["tracks"] = new_tracks()
+        elif how == "filter_tracks":
+            st["minimum_length"], st["minimum_duration"] = length_and_duration()
+    else:
+        st = {"do": "swap"}
+    if rng.chance(0.3):  # the analysis after this edit asks for something else than the one before
+        st["excl"] = rng.chance(0.5)
+        if rng.chance(0.5):
+            st["obsmin"] = rng.chance(0.4)
+    return st
+
+
+def gen_extract_seq(rng, i):
+    """a group object that is analysed, edited (one to five times) and analysed again after every edit"""
+    n_used = rng.choice([1, 1, 2, 2, 3])
+    n_all = n_used + (1 if rng.chance(0.35) else 0)
+    kymos = [{"n_lines": rng.choice([3, 5, 8, rng.randint(4, 40)]), "line_time": rng.choice([0.25, 0.5, 0.1, 0.03, rng.uniform(0.01, 2.0)])}
+             for _ in range(n_all)]
+    via = "fit" if rng.chance(0.25) else "private"
+    tracks = [gen_seq_track(rng, kymos, rng.randint(0, n_used - 1), via) for _ in range(rng.randint(2, 10))]
+    steps = [gen_step(rng, kymos, n_used, via) for _ in range(rng.choice([1, 1, 2, 2, 3, 4, 5]))]
+    case = {"stream": "random-extract-seq", "op": "extract", "kymos": kymos, "tracks": tracks, "excl": rng.chance(0.6),
+            "obsmin": rng.chance(0.25), "via": via, "steps": steps, "subseed": i}
+    if via == "fit":
+        case["discrete"] = rng.chance(0.5)
+    return case
+
+
+def small_scope_seq(quick):
+    """every sequence of at most two edits from a small alphabet on one group over two small kymographs, analysed with
+    ambiguous dwells kept and excluded"""
+    kymos = [{"n_lines": 5, "line_time": 0.25}, {"n_lines": 3, "line_time": 0.5}]
+    tracks = [
+        {"kymo": 0, "idx": [0, 1, 2], "minobs": 0.25, "pos": 0.5},  # starts in the first scan line
+        {"kymo": 0, "idx": [1, 2], "minobs": 0.25, "pos": 1.5},
+        {"kymo": 0, "idx": [1, 2, 3], "minobs": 0.25, "pos": 2.5},
+        {"kymo": 0, "idx": [2, 3, 4], "minobs": 0.25, "pos": 1.5},  # ends in the last scan line
+        {"kymo": 1, "idx": [1], "minobs": 0.5, "pos": 2.5},  # seen in one line only
+    ]
+    extra0 = {"kymo": 0, "idx": [1, 3], "minobs": 0.25, "pos": 3.5}
+    extra1 = {"kymo": 1, "idx": [0, 1], "minobs": 0.5, "pos": 3.5}
+    alphabet = [
+        {"do": "filter", "minimum_length": 3, "minimum_duration": 0},
+        {"do": "filter", "minimum_length": 1, "minimum_duration": 0.5},
+        {"do": "rect", "rect": [[0.0, 1.0], [10.0, 2.0]], "all_points": False},
+        {"do": "rect", "rect": [[0.2, 0.0], [0.8, 4.0]], "all_points": True},
+        {"do": "remove", "index": 2},
+        {"do": "extend", "tracks": [extra0], "as": "track"},
+        {"do": "extend", "tracks": [extra1], "as": "group"},
+        {"do": "derive", "how": "copy", "keep": "original"},
+        {"do": "swap"},
+        {"do": "again"},
+    ]
+    seqs = [[a] for a in alphabet] + [[a, b] for a in alphabet for b in alphabet]
+    for seq in seqs:
+        for excl in (False, True):
+            if quick and len(seq) == 2 and excl is False and seq[0]["do"] in ("again", "swap"):
+                continue
+            yield {"stream": "small-scope", "op": "extract", "kymos": kymos, "tracks": tracks, "excl": excl, "obsmin": False,
+                   "via": "private", "steps": [dict(s) for s in seq]}
+    for seq in ([alphabet[0]], [alphabet[2]], [alphabet[4], alphabet[5]]):
+        for discrete in (False, True):
+            fit_tracks = [dict(t) for t in tracks]
+            yield {"stream": "small-scope", "op": "extract", "kymos": kymos, "tracks": fit_tracks, "excl": True, "obsmin": False,
+                   "via": "fit", "discrete": discrete, "steps": [dict(s) for s in seq]}
+
+
 def gen_validate(rng, i):
     n = rng.randint(2, 12)
     tmin = rng.choice([0.2, 0.5, 1.0])
@@ -1374,6 +1795,8 @@ def cases(tier, rng):
                           for k, (a, b) in zip(lay, combo)]
                 yield {"stream": "small-scope", "op": "extract", "kymos": kymos, "tracks": tracks, "excl": excl,
                        "obsmin": obsmin, "via": "private"}
+    # ---- small scope: one group object analysed, edited in place, analysed again
+    yield from small_scope_seq(quick)
     for minobs in (None, 0.25):
         for excl in (False, True):
             yield {"stream": "malformed", "op": "extract", "kymos": kymos, "excl": excl, "obsmin": False, "via": "private",
@@ -1381,8 +1804,8 @@ def cases(tier, rng):
                               {"kymo": 1, "idx": [], "minobs": 0.5} if minobs else {"kymo": 1, "idx": [1], "minobs": None}]}
 
     # ---- seeded random streams
-    sizes = {"lik": 260, "fit": 140, "constraint": 400, "extract": 500, "validate": 60} if quick else \
-            {"lik": 4000, "fit": 2500, "constraint": 6000, "extract": 8000, "validate": 600}
+    sizes = {"lik": 260, "fit": 140, "constraint": 400, "extract": 500, "extract-seq": 300, "validate": 60} if quick else \
+            {"lik": 4000, "fit": 2500, "constraint": 6000, "extract": 8000, "extract-seq": 5000, "validate": 600}
     r = rng.fork("c15-lik")
     for i in range(sizes["lik"]):
         yield gen_lik(r.fork(i), tier, i)
@@ -1395,6 +1818,9 @@ def cases(tier, rng):
     r = rng.fork("c15-extract")
     for i in range(sizes["extract"]):
         yield gen_extract(r.fork(i), i)
+    r = rng.fork("c15-extract-seq")
+    for i in range(sizes["extract-seq"]):
+        yield gen_extract_seq(r.fork(i), i)
     r = rng.fork("c15-validate")
     for i in range(sizes["validate"]):
         yield gen_validate(r.fork(i), i)
@@ -1410,6 +1836,10 @@ def extra_coverage(results):
     slsqp = {}
     ext = {"kept-all": 0, "dropped-some": 0, "kept-none": 0, "error": 0, "via-fit": 0, "multi-kymo": 0, "first-or-last-line": 0}
     cons = {"one-free": 0, "several-free": 0, "all-fixed": 0, "error": 0}
+    seq = {"cases": 0, "analyses": 0, "via-fit": 0, "multi-kymo": 0, "edits-that-changed-the-group": 0,
+           "analyses-after-an-in-place-change": 0, "rows-handed-over-after-a-change": 0, "refused-edits": 0,
+           "fit-refused-rows-outside-their-own-limits": 0}
+    seq_edits = {}
     pooled = {"fits-with-array-limits": 0, "several-distinct-windows": 0, "density-integrated": 0, "points-outside-some-window": 0}
     for r in results:
         c = r["case"]
@@ -1440,6 +1870,25 @@ def extra_coverage(results):
                 for lo, hi, st in limit_classes(c):
                     if st is not None and not disc_K(lo, hi, st, c["taus"])[1]:
                         uncovered += 1
+        if c["op"] == "extract" and "steps" in c:
+            seq["cases"] += 1
+            seq["via-fit"] += c["via"] == "fit"
+            seq["multi-kymo"] += len({t["kymo"] for t in c["tracks"]}) > 1
+            seq["refused-edits"] += len(c.get("_refused_steps", []))
+            parts = [split_state(a) for a in r["impl"]]
+            seq["analyses"] += len(parts)
+            seq["fit-refused-rows-outside-their-own-limits"] += sum(1 for _, p in parts if c["via"] == "fit" and p == "ValueError")
+            for j, st in enumerate(c["steps"]):
+                kind = st["do"] if st["do"] != "derive" else "derive-" + st["how"]
+                seq_edits[kind] = seq_edits.get(kind, 0) + 1
+                if j + 1 < len(parts) and parts[j + 1][0] != parts[j][0]:
+                    seq["edits-that-changed-the-group"] += 1
+                    if st["do"] in ("filter", "rect", "remove", "extend", "split", "merge"):
+                        seq["analyses-after-an-in-place-change"] += 1
+                    p = parts[j + 1][1]
+                    if p is not None and not p.endswith("Error") and parse_rows(p)[0]:
+                        seq["rows-handed-over-after-a-change"] += 1
+            continue
         if c["op"] == "extract":
             a = r["impl"][0]
             if a.endswith("Error"):
@@ -1461,6 +1910,6 @@ def extra_coverage(results):
                 cons["several-free" if nfree >= 2 else ("all-fixed" if c["mask"] is not None and all(c["mask"][: c["n"]]) else "one-free")] += 1
     return {"case_kinds": kinds, "error_kinds": errs, "components": ncomp, "observations_per_case": nobs, "limits": limits,
             "windows": windows, "model_kind": model_kind, "slsqp_exit_of_fits": slsqp, "discrete_inf_sums_not_covering_support_skipped": uncovered,
-            "extraction": ext, "amplitude_constraint": cons, "pdf_of_pooled_windows": pooled, "exhaustive": False,
+            "extraction": ext, "extraction_same_group_object_edited": dict(seq, edits=seq_edits), "amplitude_constraint": cons, "pdf_of_pooled_windows": pooled, "exhaustive": False,
             "exhaustive_note": "the small-scope streams enumerate their finite spaces completely; the random streams do not",
             "dropped_for_margin": dict(_DROPPED)}
